@@ -212,7 +212,8 @@ def main():
                 if not rejected(g):
                     em.violation("a damaged frame is accepted with validation on after the same bytes were parsed with validation off (%s)" % how,
                                  {"frame": f.hex(), "bits": ps, "note": "history: parse(validate=0) of the damaged bytes via the %s, then parse(validate=1)" % how}, {})
-                got = [r for r, _ in RTCMReader(_io.BytesIO(g + f + g), validate=1, quitonerror=0)]
+                # (through a stream only for damage behind the length field: a damaged length changes what the reader takes for the frame)
+                got = [r for r, _ in RTCMReader(_io.BytesIO(g + f + g), validate=1, quitonerror=0)] if min(ps) >= 24 else [f]
                 if got != [f]:
                     em.violation("reader with validation on returns %d frames from damaged+good+damaged after the damaged bytes were parsed with validation off" % len(got),
                                  {"frame": f.hex(), "bits": ps, "note": "history: validate=0 parse first"}, {})
